@@ -288,14 +288,14 @@ example : ∃ i w tw, i < 11 ∧ (evsOf refP 0 {} 0 refH)[i]? = some (.mapStep w
 
 /-- `sync()` is daemons only: here it evicts / rejects keys 3 and 4. -/
 example : fragOf refP (Sync.runState refP {}
-      [.ins 1 1, .ins 2 1, .ins 3 1, .adv 600000000, .ins 4 1]) 0 5 .sync =
+      [.ins 1 1, .ins 2 1, .ins 3 1, .adv Gen.PAST_SYNC_INTERVAL_NS, .ins 4 1]) 0 5 .sync =
     [.daemon 3, .daemon 4] := by
   decide +kernel
 
 /-- Time-to-live of 10 ns. -/
 def refQ : Params := { ttl := some 10 }
 
-def refG : List Op := [.ins 1 7, .adv 600000000, .get 1, .has 1, .get 2]
+def refG : List Op := [.ins 1 7, .adv Gen.PAST_SYNC_INTERVAL_NS, .get 1, .has 1, .get 2]
 
 /-- A filtered lookup: the `get 1` (instance 2) is answered `none` although key 1 is in the
 map before and after the call (the entry is expired and no maintenance is due: the map step
